@@ -118,7 +118,7 @@ def judge(E, name, clause, hyps, goal, source, timeout_ms, witness_terms=None, e
 
 
 def outcomes_to_results(E, base, source, results, post, allowed_exc, witness_terms, timeout_ms,
-                        exclude=None, pre_name="pre"):
+                        exclude=None, pre_name="pre", raise_post=None):
     """results: [(path, outcome)] from explore().  post(path, value) -> z3 Bool | list[(clause, goal)].
     allowed_exc(exc) -> bool."""
     out = []
@@ -137,6 +137,9 @@ def outcomes_to_results(E, base, source, results, post, allowed_exc, witness_ter
                     obls.append(Obligation(clause, path.pc + path.insts, goal))
             elif g is not None:
                 obls.append(Obligation("post.value", path.pc + path.insts, g))
+        elif kind == "raise" and raise_post is not None and raise_post(path, outcome[1]) is not None:
+            for clause, goal in raise_post(path, outcome[1]):
+                obls.append(Obligation(clause, path.pc + path.insts, goal, {"exception": outcome[1].name}))
         elif kind == "raise":
             exc = outcome[1]
             if not allowed_exc(exc):
